@@ -3,7 +3,10 @@
    pruned once).  Definitions only.
 
    What is transcribed from the Rust:
-     KeyValueStore::range_scan (lsmtk/src/kvs/mod.rs): the snapshot (mem, imm, version, seq_no);
+     KeyValueStore::range_scan (lsmtk/src/kvs/mod.rs): the snapshot (mem, imm, version,
+       visible_seq_no) - visible_seq_no is the sequence number of the last completed write; with
+       no write in flight every entry of the store is <= it, and reading at it and reading at
+       seq_no are the same (C03_scan_at_visible_seq_no); the model's `seq s` stands for both;
        one MemTableCursor per memtable, each seek_to_first()'ed before it is boxed; the version's
        cursor; MergingCursor::new over them; PruningCursor::new at the snapshot's seq_no;
        BoundsCursor::new with the caller's bounds.
@@ -15,13 +18,17 @@
        skipped when no file passes; MergingCursor::new over all of them.
      LsmTree::range_scan: the version's cursor under PruningCursor::new(.., u64::MAX) and
        BoundsCursor::new.
+     SnapshotCursor (lsmtk/src/tree/mod.rs), which both range_scans wrap the result in, forwards
+       every Cursor method unchanged and only keeps the VersionRef alive (file lifetime is
+       property C08's subject): it is the identity in this model.
    The cursor combinators themselves are the models of the Cursor area (property C11); a nesting
    of them is a `Cursor.Compose.expr`, its state a `ust`, its cursor `ucur d`.
 
    Representation choices (stated, not hidden):
-   - the skiplist iterator of a memtable is the table cursor over the memtable's entries in Key
-     order (key ascending, timestamp descending) = `sort_entries` of the Lsm model's newest-first
-     list (the skiplist itself is property C17's subject);
+   - a memtable's cursor is the BoundsCursor model over the model of the skiplist iterator wrapper
+     (Scan/Skip.v), whose table is the memtable's entries in Key order (key ascending, timestamp
+     descending) = `sort_entries` of the Lsm model's newest-first list (that the skiplist holds
+     its entries in that order is property C17's subject);
    - an SstCursor under a LazyCursor is the table cursor over the file's entries (property C10);
    - the store model of the Lsm area has no immutable memtable (it exists only while a flush is
      in progress; the sequential model flushes atomically).  The scan model is nevertheless
@@ -33,6 +40,7 @@ From Coq Require Import NArith ZArith List Bool.
 From Blue Require Import Lsm.Model.
 From Blue Require Import Cursor.Iface Cursor.Ref Cursor.Lazy Cursor.Bounds Cursor.Pruning
   Cursor.Concat Cursor.Merging Cursor.Spec Cursor.Compose.
+From Blue Require Import Scan.Skip.
 Import ListNotations.
 
 (* The two areas have their own, isomorphic entry types; keys and values are `list N` in both. *)
@@ -95,25 +103,42 @@ Definition scan_expr_gen (mems : list (list Lsm.Model.entry)) (v : version) (t :
 Definition scan_expr (s : store) (lo hi : bound) : expr :=
   scan_expr_gen [mem s] (ver s) (seq s) lo hi.
 
-(* The cursor state KeyValueStore::range_scan returns.  It is `ubuild` of scan_expr_gen except
-   that every memtable cursor has had seek_to_first() called on it before MergingCursor::new
-   (`mem_scan.seek_to_first()?; cursors.push(Box::new(mem_scan));`).  Nesting depths: the merge
-   of the store is at depth 3 (its children, of depth <= 2, are cursors of `ucur 2`), the pruning
-   cursor at 4, the bounds cursor at 5.  `fuel` bounds the loops of the bounds and pruning
-   models (never exhausted: the theorems say so). *)
+(* The cursor KeyValueStore::range_scan returns, and its state.
+   `scan_expr_gen` above is the SHAPE of the nesting (used to state what the scan lists: C11's
+   spec_of).  The cursor itself is built from the combinator models directly, so that the
+   memtable cursors are what the Rust has: a BoundsCursor over the skiplist iterator wrapper
+   (Scan/Skip.v), seek_to_first()'ed before it is boxed
+   (`mem_scan.seek_to_first()?; cursors.push(Box::new(mem_scan));`).  The children of the store's
+   MergingCursor are `Box<dyn Cursor>`: memtable cursors or the version's merging cursor (a
+   cursor nesting of depth <= 2 of the Cursor area, `ucur 2`); `sumcur` is that dispatch.
+   `fuel` bounds the loops of the bounds and pruning models (never exhausted: the theorems say
+   so). *)
 Definition scan_fuel (mems : list (list Lsm.Model.entry)) (v : version) (t : N) (lo hi : bound) : nat :=
   size (scan_expr_gen mems v t lo hi) + 2.
-Definition scan_build (mems : list (list Lsm.Model.entry)) (v : version) (t : N) (lo hi : bound) : ust :=
+
+Definition mem_cursor (fuel : nat) (lo hi : bound) : cursor (bstate skstate) := bounds skcur fuel lo hi.
+(* MemTable::range_scan: BoundsCursor::new(SkipListIteratorWrapper{ iter: skiplist.iter() }, ..) *)
+Definition mem_new (lo hi : bound) (m : list Lsm.Model.entry) : bstate skstate :=
+  b_new skcur lo hi (sk_new (table (sort_entries m))).
+
+Definition kid : Type := (bstate skstate + ust)%type.
+Definition kid_cursor (fuel : nat) (lo hi : bound) : cursor kid := sumcur (mem_cursor fuel lo hi) (ucur 2).
+Definition scan_state : Type := bstate (pstate (mstate kid)).
+Definition scan_cursor (fuel : nat) (t : N) (lo hi : bound) : cursor scan_state :=
+  bounds (pruning (merging (kid_cursor fuel lo hi)) fuel t) fuel lo hi.
+
+Definition scan_build (mems : list (list Lsm.Model.entry)) (v : version) (t : N) (lo hi : bound) : scan_state :=
   let fuel := scan_fuel mems v t lo hi in
-  let mem_kids := map (fun m => c_first (ucur 2) (ubuild 2 fuel (mem_expr m lo hi))) mems in
-  let kids := mem_kids ++ [ubuild 2 fuel (version_expr v lo hi)] in
-  UB fuel lo hi (b_new (ucur 4) lo hi (UP fuel t (p_new (ucur 3) (UM (m_new (ucur 2) kids))))).
+  let kc := kid_cursor fuel lo hi in
+  let mem_kids := map (fun m => inl (c_first (mem_cursor fuel lo hi) (mem_new lo hi m))) mems in
+  let kids : list kid := mem_kids ++ [inr (ubuild 2 fuel (version_expr v lo hi))] in
+  b_new (pruning (merging kc) fuel t) lo hi (p_new (merging kc) (m_new kc kids)).
 
 (* a program of cursor calls on the cursor returned by KeyValueStore::range_scan: the
    observation (key_value(), failure) in the returned state and after every call *)
 Definition run_scan_gen (mems : list (list Lsm.Model.entry)) (v : version) (t : N) (lo hi : bound)
     (prog : list op) : list obs :=
-  run (ucur 5) prog (scan_build mems v t lo hi).
+  run (scan_cursor (scan_fuel mems v t lo hi) t lo hi) prog (scan_build mems v t lo hi).
 Definition run_scan (s : store) (lo hi : bound) (prog : list op) : list obs :=
   run_scan_gen [mem s] (ver s) (seq s) lo hi prog.
 
@@ -147,8 +172,12 @@ Definition live_at (s : store) (t : N) (lo hi : bound) (k : key) : list entry :=
       end
   | None => []
   end.
-Definition live_spec (s : store) (lo hi : bound) : list entry :=
-  flat_map (live_at s (seq s) lo hi) (sort_keys (all_keys s)).
+Definition live_spec_at (s : store) (t : N) (lo hi : bound) : list entry :=
+  flat_map (live_at s t lo hi) (sort_keys (all_keys s)).
+Definition live_spec (s : store) (lo hi : bound) : list entry := live_spec_at s (seq s) lo hi.
+
+(* the tree alone, as a store with an empty memtable (what LsmTree::range_scan reads) *)
+Definition tree_store (s : store) : store := mkS [] (ver s) (seq s).
 
 (* what the correspondence driver prints for one scan: the model's observations and the
    reference cursor over the specification, on the same program *)
